@@ -1,6 +1,7 @@
 package main
 
 import (
+	"go/ast"
 	"fmt"
 	"go/constant"
 	"go/token"
@@ -152,6 +153,12 @@ func c12R2(c *Ctx, id string) {
 			got := "<missing>"
 			if ok {
 				got = constant.ToInt(k.Val()).ExactString()
+			}
+			if !ok && !ast.IsExported(w.name) {
+				// an unexported helper constant may be renamed or folded away; every USE of the width is covered by the
+				// capacity tables (C07.R8 / C12.R11) and the 0xFFFF convention
+				c.fact(id+":common."+w.name, 0, fmt.Sprintf("common.%s == %s (unexported: optional)", w.name, w.val), true, "")
+				continue
 			}
 			c.fact(id+":common."+w.name, 0, fmt.Sprintf("common.%s == %s", w.name, w.val), ok && got == w.val, "value is "+got)
 		}
